@@ -21,6 +21,9 @@ ASSUMPTIONS = ["redb tables are identified by their key/value types", "postcard 
 LPA = "latest_per_author"
 
 
+EXPLANATION += ' (R11, round 9) = C02.R3: the byte primitives behind the bounds of the head scans.'
+
+
 def r1(ctx):
     f = ctx.facts
     types = tables.table_types(f)
